@@ -415,3 +415,211 @@ func lwsAt(buf []byte, k int) bool {
 		(isCRLF(buf[k]) && k+1 < len(buf) && isWS(buf[k+1])) ||
 		(buf[k] == '\r' && k+2 < len(buf) && buf[k+1] == '\n' && isWS(buf[k+2]))
 }
+
+// ---- ParseURI (C14, C10 port) ----
+
+// mirror of ParseURI's local state enumeration
+const (
+	vuInit uint32 = iota
+	vuInitSIP
+	vuInitSIPS
+	vuInitTEL
+	vuSIP
+	vuSIPS
+	vuTEL
+	vuUser
+	vuPass0
+	vuPass1
+	vuHost0
+	vuHost1
+	vuHost61
+	vuHost6E
+	vuPort
+	vuParam0
+	vuParam1
+	vuHeaders
+)
+
+func pfZero(f PField) bool { return f.Offs == 0 && f.Len == 0 }
+
+func noAt(uri []byte, lo, hi int) bool {
+	return forall(lo, hi, func(k int) bool { return uri[k] != '@' })
+}
+
+// linked: component c is absent, or it starts right after the delimiter byte d found at offset prev
+func linked(uri []byte, c PField, prev int, d byte) bool {
+	return pfZero(c) || (int(c.Offs) == prev+1 && fend(c) <= len(uri) && uri[prev] == d)
+}
+
+// schemeOK: the scheme field covers uri[0:e0), which is "sip:", "sips:" or "tel:" in any letter case
+func schemeOK(uri []byte, u *PsipURI, e0 int) bool {
+	if u.Scheme.Offs != 0 || int(u.Scheme.Len) != e0 || e0 > len(uri) {
+		return false
+	}
+	switch u.URIType {
+	case SIPuri:
+		return e0 == 4 && lowerc(uri[0]) == 's' && lowerc(uri[1]) == 'i' && lowerc(uri[2]) == 'p' && uri[3] == ':'
+	case SIPSuri:
+		return e0 == 5 && lowerc(uri[0]) == 's' && lowerc(uri[1]) == 'i' && lowerc(uri[2]) == 'p' && lowerc(uri[3]) == 's' && uri[4] == ':'
+	case TELuri:
+		return e0 == 4 && lowerc(uri[0]) == 't' && lowerc(uri[1]) == 'e' && lowerc(uri[2]) == 'l' && uri[3] == ':'
+	}
+	return false
+}
+
+// upOK: the user-info part is absent, or it is user[:pass]@ starting at e0
+func upOK(uri []byte, u *PsipURI, e0 int) bool {
+	if u.User.Offs == 0 {
+		return pfZero(u.User) && pfZero(u.Pass)
+	}
+	e := fend(u.User)
+	if int(u.User.Offs) != e0 || u.User.Len == 0 {
+		return false
+	}
+	if u.Pass.Offs != 0 {
+		if int(u.Pass.Offs) != e+1 || e >= len(uri) || uri[e] != ':' {
+			return false
+		}
+		e = fend(u.Pass)
+	} else if u.Pass.Len != 0 {
+		return false
+	}
+	return e < len(uri) && uri[e] == '@'
+}
+
+// upEnd: the offset right after the user-info part (e0 if there is none)
+func upEnd(u *PsipURI, e0 int) int {
+	if u.User.Offs == 0 {
+		return e0
+	}
+	if u.Pass.Offs != 0 {
+		return fend(u.Pass) + 1
+	}
+	return fend(u.User) + 1
+}
+
+// tailOK: h (the host; for tel: the number) starts at h0 and is followed by [:port][;params][?headers] up to n,
+// each component right after its delimiter
+func tailOK(uri []byte, u *PsipURI, h PField, h0, n int) bool {
+	if int(h.Offs) != h0 || h.Len == 0 {
+		return false
+	}
+	e1 := fend(h)
+	e2 := nextEnd(u.Port, e1)
+	e3 := nextEnd(u.Params, e2)
+	return linked(uri, u.Port, e1, ':') && linked(uri, u.Params, e2, ';') && linked(uri, u.Headers, e3, '?') &&
+		nextEnd(u.Headers, e3) == n
+}
+
+// brOK: a host that starts with '[' ends with ']'
+func brOK(uri []byte, h PField) bool {
+	return h.Len == 0 || uri[h.Offs] != '[' || uri[fend(h)-1] == ']'
+}
+
+func satport(v uint64) int {
+	if v > 65535 {
+		return 65536
+	}
+	return int(v)
+}
+
+func max2(a, b int) int {
+	if a > b {
+		return a
+	}
+	return b
+}
+
+// portExact: the port number is the decimal value of the port digits (0 when there is no port)
+func portExact(uri []byte, u *PsipURI) bool {
+	if u.Port.Offs == 0 {
+		return u.PortNo == 0
+	}
+	return allDigits(uri, int(u.Port.Offs), fend(u.Port)) && uint64(u.PortNo) == satdec(uri, int(u.Port.Offs), fend(u.Port))
+}
+
+// uriLossless: the C14 postcondition for an accepted URI of n bytes
+func uriLossless(uri []byte, u *PsipURI, n int) bool {
+	e0 := int(u.Scheme.Len)
+	if !schemeOK(uri, u, e0) || n != len(uri) {
+		return false
+	}
+	if u.URIType == TELuri {
+		return pfZero(u.Host) && int(u.User.Offs) >= e0 && (int(u.User.Offs) == e0 || uri[int(u.User.Offs)-1] == '@') &&
+			tailOK(uri, u, u.User, int(u.User.Offs), n)
+	}
+	return upOK(uri, u, e0) && tailOK(uri, u, u.Host, upEnd(u, e0), n) && brOK(uri, u.Host) &&
+		noAt(uri, max2(int(u.Host.Offs), e0+1), n)
+}
+
+// uriInv: ParseURI's loop invariant, a conjunction of per-state facts (e0: scheme end, s: start of the
+// component being scanned)
+func uriInv(uri []byte, u *PsipURI, state uint32, e0, s, i int, foundUser bool, passOffs int, portNo int) bool {
+	return e0 <= i && i <= len(uri) && schemeOK(uri, u, e0) && 0 <= passOffs &&
+		state >= vuInitSIP && state <= vuHeaders && state != vuSIP && state != vuSIPS && state != vuTEL &&
+		(state < vuUser || (e0 <= s && s <= i)) &&
+		// a password candidate (only while the user part has not been found; stale afterwards)
+		(passOffs == 0 || foundUser || (state >= vuParam0 && fend(u.Host) < passOffs && passOffs < i && uri[passOffs] == ':')) &&
+		(state > vuInitTEL || uriInvInit(u, e0, i, foundUser, portNo)) &&
+		(state != vuUser || uriInvUser(uri, u, e0, s, i, foundUser, portNo)) &&
+		((state != vuPass0 && state != vuPass1) || uriInvPass(uri, u, state, e0, s, i, foundUser, portNo)) &&
+		(state < vuHost0 || (upOK(uri, u, e0) && (foundUser || u.User.Offs == 0))) &&
+		(state < vuHost0 || state > vuHost6E || uriInvHost(uri, u, state, e0, s, i, foundUser, portNo)) &&
+		(state < vuPort || uriInvHostKnown(uri, u, e0, i)) &&
+		(state != vuPort || uriInvPort(uri, u, s, i, portNo)) &&
+		((state != vuParam0 && state != vuParam1) || uriInvParam(uri, u, s)) &&
+		(state != vuHeaders || uriInvHeaders(uri, u, s))
+}
+
+func uriRest0(u *PsipURI) bool {
+	return pfZero(u.Host) && pfZero(u.Port) && pfZero(u.Params) && pfZero(u.Headers)
+}
+
+func uriInvInit(u *PsipURI, e0, i int, foundUser bool, portNo int) bool {
+	return i == e0 && !foundUser && uriRest0(u) && pfZero(u.User) && pfZero(u.Pass) && portNo == 0
+}
+
+func uriInvUser(uri []byte, u *PsipURI, e0, s, i int, foundUser bool, portNo int) bool {
+	return s == e0 && s < i && !foundUser && uriRest0(u) && pfZero(u.User) && pfZero(u.Pass) && portNo == 0 &&
+		uri[s] != '[' && noAt(uri, e0+1, i)
+}
+
+func uriInvPass(uri []byte, u *PsipURI, state uint32, e0, s, i int, foundUser bool, portNo int) bool {
+	return !foundUser && uriRest0(u) && pfZero(u.Pass) && int(u.User.Offs) == e0 && u.User.Len > 0 && fend(u.User)+1 == s &&
+		uri[s-1] == ':' && uri[e0] != '[' && noAt(uri, e0+1, i) &&
+		(state == vuPass1 || (allDigits(uri, s, i) && portNo == satport(satdec(uri, s, i)))) &&
+		(state == vuPass0 || (s < i && portNo == 0))
+}
+
+func uriInvHost(uri []byte, u *PsipURI, state uint32, e0, s, i int, foundUser bool, portNo int) bool {
+	return uriRest0(u) && s == upEnd(u, e0) && portNo == 0 && noAt(uri, max2(s, e0+1), i) &&
+		(state != vuHost0 || (s == i && foundUser)) &&
+		(state != vuHost1 || (s < i && uri[s] != '[')) &&
+		(state != vuHost61 || (s < i && uri[s] == '[')) &&
+		(state != vuHost6E || (s+1 < i && uri[s] == '[' && uri[i-1] == ']'))
+}
+
+// the host is known (states from uPort on)
+func uriInvHostKnown(uri []byte, u *PsipURI, e0, i int) bool {
+	h0 := upEnd(u, e0)
+	return int(u.Host.Offs) == h0 && u.Host.Len > 0 && brOK(uri, u.Host) && noAt(uri, max2(h0, e0+1), i)
+}
+
+func uriInvPort(uri []byte, u *PsipURI, s, i int, portNo int) bool {
+	e1 := fend(u.Host)
+	return pfZero(u.Port) && pfZero(u.Params) && pfZero(u.Headers) && s == e1+1 && uri[e1] == ':' &&
+		allDigits(uri, s, i) && portNo == satport(satdec(uri, s, i))
+}
+
+func uriInvParam(uri []byte, u *PsipURI, s int) bool {
+	e1 := fend(u.Host)
+	e2 := nextEnd(u.Port, e1)
+	return linked(uri, u.Port, e1, ':') && pfZero(u.Params) && pfZero(u.Headers) && s == e2+1 && uri[e2] == ';'
+}
+
+func uriInvHeaders(uri []byte, u *PsipURI, s int) bool {
+	e1 := fend(u.Host)
+	e2 := nextEnd(u.Port, e1)
+	e3 := nextEnd(u.Params, e2)
+	return linked(uri, u.Port, e1, ':') && linked(uri, u.Params, e2, ';') && pfZero(u.Headers) && s == e3+1 && uri[e3] == '?'
+}
